@@ -41,7 +41,7 @@ class InjectedFault(Exception):
 
 
 def cases(tier, seed):
-    n = 160 if tier == "quick" else 3000
+    n = 160 if tier == "quick" else 10000
     names = [e for e in ENZYMES if e in gen.enzyme_names() or e in ("BsaI", "BbsI", "BsmBI")]
     out = []
     for i in range(n):
